@@ -33,7 +33,7 @@ pub enum HCall {
 
 /// Call sequences for an iterator of `len` items.
 pub fn sequences(len: usize, strides: &[usize]) -> Vec<Vec<HCall>> {
-    let mut huge: Vec<usize> = vec![usize::MAX, usize::MAX - 1, usize::MAX / 2, usize::MAX / 2 + 1, 1 << 32, 1 << 33, (1 << 32) + 1, 1 << 63, len, len.wrapping_sub(1), len.wrapping_add(1)];
+    let mut huge: Vec<usize> = vec![usize::MAX, usize::MAX - 1, usize::MAX / 2, usize::MAX / 2 + 1, 1 << 32, 1 << 33, (1 << 32) + 1, 1 << 63, len, len.wrapping_sub(1), len.wrapping_add(1), len.wrapping_sub(2), len / 2, 254, 255, 256, 257, 65534, 65535, 65536, 65537];
     for &s in strides {
         if s > 1 {
             huge.push(usize::MAX / s);
@@ -88,13 +88,25 @@ pub fn enc(seq: &[HCall]) -> String {
 }
 
 /// Runs one sequence on a fresh iterator of `len` items. `item_ok` validates a yielded item.
-/// Returns false if a call was skipped (slow-call rule), in which case the rest of the sequence is not run.
-pub fn run<I, F>(mut it: I, len: usize, seq: &[HCall], mut item_ok: F, what: &str, cs: &mut Case)
+/// If a call falls under the slow-call rule the rest of the sequence is not run.
+pub fn run<I, F>(it: I, len: usize, seq: &[HCall], mut item_ok: F, what: &str, cs: &mut Case)
 where
     I: DoubleEndedIterator + ExactSizeIterator,
     F: FnMut(&I::Item) -> Option<String>,
 {
+    run_indexed(it, len, seq, |x, _| item_ok(x), false, what, cs)
+}
+
+/// As `run`; `item_ok` is also told the position (in the ideal sequence of `len` items) of the item it is shown,
+/// and `any_jump` lifts the slow-call rule (for arrays of ordinary size).
+pub fn run_indexed<I, F>(mut it: I, len: usize, seq: &[HCall], mut item_ok: F, any_jump: bool, what: &str, cs: &mut Case)
+where
+    I: DoubleEndedIterator + ExactSizeIterator,
+    F: FnMut(&I::Item, usize) -> Option<String>,
+{
     let mut rem = len;
+    // items taken from the front / from the back so far
+    let (mut taken_f, mut taken_b) = (0usize, 0usize);
     let sizes = |it: &I, rem: usize, at: &str, cs: &mut Case| {
         match guarded(|| (it.len(), it.size_hint())) {
             Ok((l, h)) => {
@@ -117,7 +129,7 @@ where
             HCall::Count | HCall::Last => true,
             _ => false,
         };
-        if jump && rem > 4 {
+        if jump && rem > 4 && !any_jump {
             return;
         }
         match call {
@@ -146,26 +158,30 @@ where
             HCall::NthBack(n) => it.nth_back(*n),
             _ => unreachable!(),
         });
-        let exp_some = match call {
-            HCall::Next | HCall::NextBack => {
-                if rem > 0 {
-                    rem -= 1;
-                    true
-                } else {
-                    false
-                }
-            }
-            HCall::Nth(n) | HCall::NthBack(n) => {
-                if *n < rem {
-                    rem -= *n + 1;
-                    true
-                } else {
-                    rem = 0;
-                    false
-                }
-            }
-            _ => unreachable!(),
+        let front = matches!(call, HCall::Next | HCall::Nth(_));
+        let skip = match call {
+            HCall::Nth(n) | HCall::NthBack(n) => *n,
+            _ => 0,
         };
+        // position of the expected item in the ideal sequence
+        let exp_pos: Option<usize> = if skip < rem { Some(if front { taken_f + skip } else { len - 1 - taken_b - skip }) } else { None };
+        let exp_some = exp_pos.is_some();
+        if exp_some {
+            rem -= skip + 1;
+            if front {
+                taken_f += skip + 1;
+            } else {
+                taken_b += skip + 1;
+            }
+        } else {
+            // everything that was left is gone
+            if front {
+                taken_f += rem;
+            } else {
+                taken_b += rem;
+            }
+            rem = 0;
+        }
         match got {
             Err(m) => {
                 cs.fail("hugezst:panic", format!("{} {}: panicked: {}", what, at, m));
@@ -177,7 +193,7 @@ where
                     return;
                 }
                 if let Some(x) = &g {
-                    if let Some(m) = item_ok(x) {
+                    if let Some(m) = item_ok(x, exp_pos.unwrap_or(0)) {
                         cs.fail("hugezst:wrong-item", format!("{} {}: {}", what, at, m));
                         return;
                     }
@@ -211,4 +227,23 @@ pub fn windows(c: usize, r: usize) -> Vec<((usize, usize), (usize, usize))> {
 pub fn parse_shape(s: &str) -> (usize, usize) {
     let (c, r) = s.split_once('x').unwrap();
     (c.parse().unwrap(), r.parse().unwrap())
+}
+
+/// Shapes of ordinary (u32) arrays whose dimensions cross 256 and 65536: sizes at which std's algorithms change
+/// strategy and at which a narrowed integer (u8 / u16) would truncate.
+pub fn mid_shapes(tier: crate::engine::Tier) -> Vec<(usize, usize)> {
+    let mut v = vec![(257, 3), (3, 257), (300, 1), (1, 300)];
+    if tier == crate::engine::Tier::Thorough {
+        v.extend([(65537, 1), (1, 65537), (65537, 2), (2, 65537), (300, 300)]);
+    }
+    v
+}
+/// The call sequences used on those: for small lengths all of `sequences`, above 1000 items only the ones that jump.
+pub fn mid_sequences(len: usize, strides: &[usize]) -> Vec<Vec<HCall>> {
+    let all = sequences(len, strides);
+    if len <= 1000 {
+        all
+    } else {
+        all.into_iter().filter(|s| s.len() <= 1 || s.iter().any(|c| matches!(c, HCall::Nth(n) | HCall::NthBack(n) if *n > 2) || matches!(c, HCall::Count | HCall::Last))).collect()
+    }
 }
